@@ -149,6 +149,51 @@ def interval_tables():
     return out
 
 
+def effective_pattern(rx):
+    """pattern text of a compiled re; for re.VERBOSE patterns the layout is removed (whitespace outside
+    character classes, `#` comments), so that only what the expression means is compared"""
+    import re as _re
+    text = rx.pattern
+    if not rx.flags & _re.VERBOSE:
+        return text
+    out, i, in_class = [], 0, False
+    while i < len(text):
+        c = text[i]
+        if c == '\\' and i + 1 < len(text):
+            out.append(text[i:i + 2])
+            i += 2
+            continue
+        if in_class:
+            in_class = c != ']'
+            out.append(c)
+        elif c == '[':
+            in_class = True
+            out.append(c)
+        elif c == '#':
+            while i < len(text) and text[i] != '\n':
+                i += 1
+            continue
+        elif not c.isspace():
+            out.append(c)
+        i += 1
+    return ''.join(out)
+
+
+def duration_regexes():
+    """C19: the two regular expressions of timeunits.py (effective text + flags other than VERBOSE)"""
+    import re as _re
+    rows = []
+    for n in ('_RE_DURATION', '_RE_ISO_DURATION'):
+        rx = getattr(timeunits, n)
+        flags = sorted(f.name for f in _re.RegexFlag
+                       if f.name and rx.flags & f and f not in (_re.VERBOSE, _re.UNICODE))
+        rows.append(f'({lstr(n)}, {lstr(effective_pattern(rx))}, {llist(lstr(f) for f in flags)})')
+    return ['', '/-- the regular expressions of edzed/utils/timeunits.py modelled by hand in EdzedModel/TimeUnits.lean:',
+            '    name, effective pattern text (VERBOSE layout removed), flags -/',
+            'def durationRegexes : List (String × String × List String) := ' + llist(rows),
+            f'def durationNum : String := {lstr(timeunits._NUM)}']
+
+
 def main(outfile):
     L = []
     L.append('/- GENERATED by tools/extract.py from the edzed source -- do not edit -/')
@@ -195,6 +240,7 @@ def main(outfile):
     L.extend(interval_tables())
     L.append('')
     L.extend(filters_tables())
+    L.extend(duration_regexes())
     L.append('')
     L.append('end Edzed.Gen')
     text = '\n'.join(L) + '\n'
